@@ -83,3 +83,36 @@ theorem mem_stripBy {p : Char → Bool} {s : List Char} {c : Char} (h : c ∈ st
   exact (List.dropWhile_sublist p (l := s)).subset h1
 
 end Cfi
+
+namespace Cfi
+open Cfi.Text
+
+/-- `strip` cuts a text out of the middle: `s = pre ++ strip s ++ post` -/
+theorem stripBy_infix {p : Char → Bool} (s : List Char) : ∃ pre post, s = pre ++ stripBy p s ++ post := by
+  refine ⟨s.takeWhile p, ((s.dropWhile p).reverse.takeWhile p).reverse, ?_⟩
+  unfold stripBy
+  have h1 : s = s.takeWhile p ++ s.dropWhile p := (List.takeWhile_append_dropWhile).symm
+  have h2 : (s.dropWhile p).reverse =
+      (s.dropWhile p).reverse.takeWhile p ++ (s.dropWhile p).reverse.dropWhile p :=
+    (List.takeWhile_append_dropWhile).symm
+  have h3 : s.dropWhile p = ((s.dropWhile p).reverse.dropWhile p).reverse ++
+      ((s.dropWhile p).reverse.takeWhile p).reverse := by
+    have h4 := congrArg List.reverse h2
+    rw [List.reverse_reverse, List.reverse_append] at h4
+    exact h4
+  rw [List.append_assoc, ← h3]
+  exact h1
+
+/-- a character inside the trimmed text that is white space is followed by
+another character of the trimmed text -/
+theorem ws_in_strip_not_last (s : List Char) (c : Char) (hc : isStripWs c = true) (s1 s2 : List Char)
+    (h : strip s = s1 ++ c :: s2) : s2 ≠ [] := by
+  intro e
+  subst e
+  have := (stripBy_ends (p := isStripWs) s).2 c (by
+    show (strip s).getLast? = some c
+    rw [h]; simp)
+  rw [hc] at this
+  exact absurd this (by simp)
+
+end Cfi
